@@ -483,7 +483,7 @@ def create_learners_from_sweep(
 
 def _identify_cross_product_axes(pipeline: Pipeline) -> tuple[str, ...]:
     reduced = _reduced_axes(pipeline)
-    impossible_axes: set[str] = set()  # Constructing this as a safety measure (for assert below)
+    impossible_axes: set[str] = set()  # axes that are reduced somewhere upstream of a leaf
     for func in pipeline.leaf_nodes:
         for output_name in pipeline.func_dependencies(func):
             for name in at_least_tuple(output_name):
@@ -495,8 +495,9 @@ def _identify_cross_product_axes(pipeline: Pipeline) -> tuple[str, ...]:
         axes = pipeline.independent_axes_in_mapspecs(func.output_name)
         possible_axes.update(axes)
 
-    assert not (possible_axes & impossible_axes)
-    return tuple(sorted(possible_axes))
+    # An axis can be in a leaf's output and in a root argument and still be reduced upstream
+    # (`e[i, :], q[j] -> p[i, j]`): its elements cannot be computed independently.
+    return tuple(sorted(possible_axes - impossible_axes))
 
 
 def _iterate_axes(
